@@ -405,3 +405,87 @@ fn c14_k_lunar_week_accept() {
   core::mem::forget(r);
   kani::cover!(i == 5 && wc == 6 && m == -3, "lunar_week_accept reachable");
 }
+
+// ---- C07: the weekday of a lunar day is the weekday of its civil date (c02_k_lunar_to_solar, c07_k_solar_day_week)
+static mut LWK_ASKED: (isize, usize, usize) = (-7971, 7972, 7973);
+fn lwk_get_solar_day(_d: &LunarDay) -> SolarDay { crate::tyme::solar::verif_k::mk_day(4321, 7, 9) }
+fn lwk_day_get_week(d: &SolarDay) -> Week { unsafe { LWK_ASKED = (d.get_year(), d.get_month(), d.get_day()); } Week::from_index(unsafe { LW_W }) }
+#[kani::proof]
+#[kani::unwind(9)]
+#[kani::stub(alloc::fmt::format, stub_format)]
+#[kani::stub(LunarDay::get_solar_day, lwk_get_solar_day)]
+#[kani::stub(SolarDay::get_week, lwk_day_get_week)]
+fn c07_k_lunar_day_week() {
+  let d = any_lunar_day(); let w: isize = kani::any();
+  kani::assume(w >= 0 && w <= 6);
+  unsafe { LW_W = w; }
+  let r = d.get_week();
+  assert!(r.get_index() as isize == w && unsafe { LWK_ASKED } == (4321, 7, 9), "the weekday of a lunar day is the weekday of its civil date");
+  core::mem::forget(d);
+  kani::cover!(w == 6, "lunar_day_week reachable");
+}
+
+// ---- C17: the hour spirits and the hour nine star on the LUNAR-HOUR view (own bodies, not forwarding): the spirits take the
+// day branch of the instant view (rolled at 23:00) and the hour pillar of this view; the nine star takes the day pillar of the
+// lunar day, the solstice days of the civil year and the index of the double-hour in the day.
+use crate::tyme::sixtycycle::verif_k::{mk_sixty_hour};
+use crate::tyme::solar::verif_k::{mk_day, mk_term};
+static mut LH_DP: isize = -7981;
+static mut LH_HP: isize = -7982;
+static mut LH_LDP: isize = -7987;   // day pillar of the LUNAR day (differs from the instant view's from 23:00)
+fn lh_lunar_day_pillar(_d: &LunarDay) -> SixtyCycle { cheap_cycle(unsafe { LH_LDP }) }
+static mut LH_SOL: (usize, usize, usize, usize) = (7983, 7984, 7985, 7986);   // (winter month, day, summer month, day) of the civil year
+fn lh_get_sixty_cycle_hour(_h: &LunarHour) -> SixtyCycleHour { mk_sixty_hour(unsafe { LH_DP }, unsafe { LH_HP }) }
+fn lh_hour_pillar(_h: &LunarHour) -> SixtyCycle { cheap_cycle(unsafe { LH_HP }) }
+fn lh_day_pillar(_d: &LunarDay) -> SixtyCycle { cheap_cycle(unsafe { LH_DP }) }
+fn lh_day_solar_day(_d: &LunarDay) -> SolarDay { mk_day(2000, 6, 15) }
+fn lh_term_from_index(year: isize, index: isize) -> SolarTerm { mk_term(year, index, if index == 0 { 1.0 } else { 2.0 }) }
+fn lh_term_next(t: &SolarTerm, n: isize) -> SolarTerm { mk_term(t.get_year(), t.get_index() as isize + n, if t.get_index() as isize + n == 12 { 2.0 } else { 3.0 }) }
+fn lh_term_jd(t: &SolarTerm) -> JulianDay { JulianDay::from_julian_day(t.get_cursory_julian_day()) }
+fn lh_jd_solar_day(j: &JulianDay) -> SolarDay { let v = unsafe { LH_SOL }; if j.get_day() == 1.0 { mk_day(2000, v.0, v.1) } else { mk_day(2000, v.2, v.3) } }
+
+#[kani::proof]
+#[kani::unwind(61)]
+#[kani::stub(alloc::fmt::format, stub_format)]
+#[kani::stub(LunarHour::get_sixty_cycle_hour, lh_get_sixty_cycle_hour)]
+#[kani::stub(LunarHour::get_sixty_cycle, lh_hour_pillar)]
+#[kani::stub(LunarDay::get_sixty_cycle, lh_lunar_day_pillar)]
+#[kani::stub(EarthBranch::from_index, faithful_branch_from_index)]
+fn c17_k_lunar_hour_twelve_star() {
+  let dp: isize = kani::any(); let hp: isize = kani::any(); let ldp: isize = kani::any();
+  kani::assume(dp >= 0 && dp < 60 && hp >= 0 && hp < 60 && ldp >= 0 && ldp < 60);
+  unsafe { LH_DP = dp; LH_HP = hp; LH_LDP = ldp; }
+  let lh = mk_lunar_hour(2000, 1, 1, 23, 30, 0);
+  let (db, hb) = (dp as i64 % 12, hp as i64 % 12);
+  let start = match db { 2 | 8 => 0, 3 | 9 => 2, 4 | 10 => 4, 5 | 11 => 6, 0 | 6 => 8, _ => 10 };
+  assert!(lh.get_twelve_star().get_index() as i64 == spec::emod(hb - start, 12), "hour spirits: day branch of the INSTANT view (rolled at 23:00), hour branch of this view");
+  core::mem::forget(lh);
+  kani::cover!(db == 1 && hb == 11, "lunar_hour_twelve_star reachable");
+}
+
+#[kani::proof]
+#[kani::unwind(61)]
+#[kani::stub(alloc::fmt::format, stub_format)]
+#[kani::stub(LunarDay::get_solar_day, lh_day_solar_day)]
+#[kani::stub(LunarDay::get_sixty_cycle, lh_day_pillar)]
+#[kani::stub(SolarTerm::from_index, lh_term_from_index)]
+#[kani::stub(<SolarTerm as Tyme>::next, lh_term_next)]
+#[kani::stub(SolarTerm::get_julian_day, lh_term_jd)]
+#[kani::stub(JulianDay::get_solar_day, lh_jd_solar_day)]
+#[kani::stub(EarthBranch::from_index, faithful_branch_from_index)]
+fn c17_k_lunar_hour_nine_star() {
+  let dp: isize = kani::any(); let h: usize = kani::any();
+  let (wm, wd, sm, sd): (usize, usize, usize, usize) = (kani::any(), kani::any(), kani::any(), kani::any());
+  kani::assume(dp >= 0 && dp < 60 && h < 24 && wm >= 1 && wm <= 12 && wd >= 1 && wd <= 28 && sm >= 1 && sm <= 12 && sd >= 1 && sd <= 28);
+  unsafe { LH_DP = dp; LH_SOL = (wm, wd, sm, sd); }
+  let lh = mk_lunar_hour(2000, 1, 1, h, 30, 0);
+  let r = lh.get_nine_star().get_index() as i64;
+  core::mem::forget(lh);
+  let key = |m: usize, d: usize| (m * 32 + d) as i64;
+  let asc = key(6, 15) >= key(wm, wd) && key(6, 15) < key(sm, sd);        // between the two solstice days of the civil year
+  let start = match dp % 3 { 0 => 8i64, 1 => 5, _ => 2 };                  // by the day branch (dp mod 12 mod 3 == dp mod 3)
+  let idx = ((h + 1) / 2) as i64 % 12;
+  let want = if asc { spec::emod(8 - start + idx, 9) } else { spec::emod(start - idx, 9) };
+  assert!(r == want, "hour nine star: start 8/5/2 by day branch mod 3, descending; mirrored and ascending between the winter and the summer solstice day");
+  kani::cover!(asc && h == 23, "lunar_hour_nine_star reachable");
+}
